@@ -18,6 +18,8 @@ pub enum V {
     Func(Rc<Closure>),
     Native(Rc<NativeFn>),
     Iter(Rc<IterObj>),
+    /// IteratorOutput wrapper returned by `next()`
+    Out(Rc<V>),
 }
 
 pub struct MapObj {
@@ -168,6 +170,7 @@ pub fn type_name(v: &V) -> String {
         }
         V::Native(_) => "Function".into(),
         V::Iter(_) => "Iterator".into(),
+        V::Out(_) => "IteratorOutput".into(),
     }
 }
 
@@ -267,6 +270,11 @@ pub fn display_plain(v: &V, contained: bool, out: &mut String, parents: &mut Vec
         }
         V::Func(_) | V::Native(_) => out.push_str("||"),
         V::Iter(_) => out.push_str("Iterator"),
+        V::Out(v) => {
+            out.push_str("IteratorOutput(");
+            display_plain(v, false, out, parents);
+            out.push(')');
+        }
     }
 }
 
